@@ -60,3 +60,18 @@ Definition nodes_extra (s : settings) (m : items) : Prop :=
   | TBitVec _ _ b => hd_is (s_root s) b = false
   | _ => True
   end.
+
+(** the compact / bits wrapper paths do not start with the root ident *)
+Definition wrappers_fresh (s : settings) : Prop :=
+  (forall c, s_compact s = Some c -> hd_is (s_root s) c = false) /\
+  (forall b, s_bits s = Some b -> hd_is (s_root s) b = false).
+
+(** unit and tuple structs: the forms printed with a trailing semicolon *)
+Definition semi_struct (ir : type_ir) : Prop :=
+  exists c, ti_kind ir = KStruct c /\ (ci_kind c = CNoFields \/ exists fs, ci_kind c = CUnnamed fs).
+
+(** decidable prefix-freeness of a list of paths *)
+Definition is_proper_prefix (p q : list string) : bool :=
+  Nat.ltb (List.length p) (List.length q) && list_eqb String.eqb p (firstn (List.length p) q).
+Definition prefix_freeb (keys : list (list string)) : bool :=
+  forallb (fun p => forallb (fun q => negb (is_proper_prefix p q)) keys) keys.
